@@ -24,6 +24,8 @@ fn step(tag: u8, elen: usize, plen: usize) {
     let (mut r, e) = region_with_entry(tag, elen);
     let p = Bytes::<3>::any_len(plen);
     let before = used(&r);
+    // (a literal that starts with the entry's tag must be refused at push - the harness allows exactly that panic)
+    cover!(plen > 0 && p.buf[0] == tag, "opt: the pushed bytes start with the entry's tag");
     let idx = r.push(p.as_slice());
     // not refused: must read back exactly
     let got = r.index(idx);
@@ -33,8 +35,10 @@ fn step(tag: u8, elen: usize, plen: usize) {
     if p.as_slice() == e.as_slice() {
         assert!(used(&r) == before + 1, "C07: a dictionary entry is not stored in one byte");
     }
-    cover!(plen == elen && p.as_slice() == e.as_slice(), "the pushed bytes are the dictionary entry");
-    cover!(plen > 0 && p.buf[0] == tag, "the pushed bytes start with the entry's tag");
+    if plen == elen {
+        cover!(p.as_slice() == e.as_slice(), "opt: the pushed bytes are the dictionary entry");
+    }
+    cover!(true, "end reached without refusal");
     sym::forget(r);
 }
 
@@ -63,12 +67,14 @@ pub fn c07_step_empty_string() {
 }
 
 // @h prop=C07 tier=thorough kind=proof allow="cannot represent a literal" inst="CodecRegion<DictionaryCodec>, one entry of 1 symbolic byte at tag 1" bounds="one push of any 1 byte" desc="exact bytes back or refusal"
+#[cfg(feature = "thorough")]
 #[cfg_attr(kani, kani::proof, kani::unwind(6))]
 pub fn c07_step_tag1_e1_p1() {
     step(1, 1, 1);
 }
 
 // @h prop=C07 tier=thorough kind=proof allow="cannot represent a literal" inst="CodecRegion<DictionaryCodec>, one entry of 2 symbolic bytes at tag 2" bounds="one push of any 2 bytes" desc="exact bytes back or refusal"
+#[cfg(feature = "thorough")]
 #[cfg_attr(kani, kani::proof, kani::unwind(6))]
 pub fn c07_step_tag2_e2_p2() {
     step(2, 2, 2);
@@ -123,6 +129,7 @@ pub fn c07_generation0_empty() {
 }
 
 // @h prop=C07 tier=thorough kind=proof engine=both inst="MisraGries<u8>::with_capacity(2)" bounds="5 inserts over a symbolic 2-value domain (crosses the compaction at 4 buffered entries)" desc="no panic in tidy; reported counts never exceed true counts"
+#[cfg(feature = "thorough")]
 #[cfg_attr(kani, kani::proof, kani::unwind(8))]
 pub fn c07_misra_gries() {
     let a = sym::u8();
